@@ -326,9 +326,12 @@ impl<const K: usize> AffTree<K> {
                 "nodes with the state FeasibleWitness should conatain a non-empty vector"
             );
 
+            // The tolerance of ``contains`` is absolute. On a row with a short normal vector it
+            // admits points far outside the half-space, so the normalized row is tested as well.
+            let unit_hyperplane = hyperplane.clone().normalize();
             let inherited_solutions = solution
                 .iter()
-                .filter(|point| hyperplane.contains(point))
+                .filter(|point| hyperplane.contains(point) && unit_hyperplane.contains(point))
                 .map(|point| point.to_owned())
                 .collect_vec();
 
